@@ -495,6 +495,26 @@ func checkC13(c *Ctx) error {
 			cs = append(cs, coll{cf, true, []string{"a", "b"}, fmt.Sprintf("equal getters, todo: false written on %v", which)})
 		}
 	}
+	{
+		// a getter is an identifier exactly: one spelled with surrounding white space is rejected - also (and especially) when
+		// its trimmed form would be a duplicate, a container member, Must… or …InContext (round 13, S248)
+		pads := []func(string) string{
+			func(s string) string { return s + " " }, func(s string) string { return " " + s },
+			func(s string) string { return s + "\n" }, func(s string) string { return "\t" + s },
+			func(s string) string { return s + "\r\n" }, func(s string) string { return s + "\u00a0" },
+			func(s string) string { return "\ufeff" + s },
+		}
+		for pi, pad := range pads {
+			for _, n := range append([]string{"Container", "MustGet", "GetXInContext", "GetFine"}, names[pi%len(names)]) {
+				cf := base()
+				cf.Services[0].Getter = cfg.P(pad(n))
+				cs = append(cs, coll{cf, true, []string{"a"}, fmt.Sprintf("getter with surrounding white space (form %d)", pi)})
+			}
+			cf := base()
+			cf.Services[0].Getter, cf.Services[1].Getter = cfg.P("GetIt"), cfg.P(pad("GetIt"))
+			cs = append(cs, coll{cf, true, []string{"b"}, fmt.Sprintf("padded twin of another getter (form %d)", pi)})
+		}
+	}
 	c.Set("collision_cases", len(cs))
 	w := c.W
 	var accepted []*probe.Unit
